@@ -740,6 +740,7 @@ pub fn c12_run(ctx: &Ctx) -> i32 {
     rep.absorb("E1-proptest", out);
     if ctx.tier == Tier::Thorough {
         crate::fuzzrun::run_into(ctx, &mut rep, crate::fuzzrun::Campaign { target: "text_frontend", prop: "C12", runs_total: (ctx.scale * 2_000_000.0) as u64, max_len: 2048, seeds: crate::fuzzrun::text_seeds(), dict: true });
+        crate::fuzzrun::run_into(ctx, &mut rep, crate::fuzzrun::raw_campaign("C12", (ctx.scale * 100_000.0) as u64));
     }
     quota_check(&mut rep, &["attrs-on:terminal-enum", "attributes:6"]);
     rep.finish()
@@ -906,6 +907,7 @@ pub fn c13_run(ctx: &Ctx) -> i32 {
     rep.absorb("E1-proptest", out);
     if ctx.tier == Tier::Thorough {
         crate::fuzzrun::run_into(ctx, &mut rep, crate::fuzzrun::Campaign { target: "text_frontend", prop: "C13", runs_total: (ctx.scale * 2_000_000.0) as u64, max_len: 2048, seeds: crate::fuzzrun::text_seeds(), dict: true });
+        crate::fuzzrun::run_into(ctx, &mut rep, crate::fuzzrun::raw_campaign("C13", (ctx.scale * 100_000.0) as u64));
     }
     quota_check(&mut rep, &["max-type-depth:2", "max-type-depth:4"]);
     rep.finish()
